@@ -42,7 +42,24 @@ def gen_case(rng, tier, i):
     if rng.random() < 0.3:
         from vlib.proggen import add_oneshot_simlisteners
         add_oneshot_simlisteners(rng, prog)     # the model's own warm-up listeners come and go; every statistic still gets its reset
-    return {"prog": prog, "pauses": [rng.randint(1, 6) for _ in range(rng.choice([0, 0, 1, 2]))]}
+    case = {"prog": prog, "pauses": [rng.randint(1, 6) for _ in range(rng.choice([0, 0, 1, 2]))]}
+    if i % 6 == 3:
+        # the model ends its replication early from a handler (after the warm-up), and the run that is in progress then
+        # is a bounded one: the statistics are closed at the replication end all the same
+        from vlib.refdevs import Ref, WARMUP, tnum
+        ref = Ref(prog)
+        ref.initialize()
+        ref.run()
+        start_ = tnum(prog, prog["rep"]["start"])
+        warm_, end_ = start_ + tnum(prog, prog["rep"]["warmup"]), start_ + tnum(prog, prog["rep"]["length"])
+        late = [(t, c) for t, c, _ in ref.trace if t != WARMUP and warm_ < c < end_]
+        if late:
+            tag, c = late[len(late) // 2]
+            prog["handlers"].setdefault(tag, []).append(["endrep"])
+            b = c + (end_ - c) / 2
+            case["bound_first"] = [float(b), "s"] if clock == "duration" else (float(b) if clock == "float" or b != int(b) else int(b))
+            case["pauses"] = []
+    return case
 
 
 def shard_setup(tier, ctx):
@@ -109,6 +126,11 @@ def run_case(case, ctx):
             h.start_and_pause_after(k)
             if not h.wait_quiescent(20):
                 ctx.viol("hang:pause", {**where, "snapshot": h.snapshot()})
+                return
+        if case.get("bound_first") is not None:
+            ctx.count("replications_ended_early_by_a_handler_inside_a_bounded_run")
+            if h.cmd("run_up_to", case["bound_first"]) != "ok" or not h.wait_quiescent(20):
+                ctx.viol("run-did-not-complete", {**where, "snapshot": h.snapshot()})
                 return
         if h.sim.run_state.name != "ENDED":
             if h.cmd("start") != "ok" or not h.wait_quiescent(20):
